@@ -26,6 +26,7 @@ type C10Scn struct {
 	Clock    int      `json:"clock_moves"`   // clock advances the scheduler may take
 	HooksLate bool    `json:"hooks_late,omitempty"`   // the hooks are assigned after Refresh, not before
 	ConLayout string  `json:"console_layout,omitempty"` // sync/async: a second reference to a Console appender with this layout
+	RefLevel string   `json:"ref_level,omitempty"` // sync/async: the only reference carries a level of its own (what the appender accepts is not what the logger enables)
 	Rolling  bool     `json:"rolling_ref,omitempty"` // sync/async: one more reference, to a RollingFile appender (a component with a clock of its own)
 	Style    Style    `json:"style"`
 }
@@ -75,6 +76,10 @@ func (c10) Gen(rt *rapid.T, thorough bool) any {
 	s.HooksLate = rapid.IntRange(0, 3).Draw(rt, "hooks_late") == 0
 	s.ConLayout = rapid.SampledFrom([]string{"", "JSONLayout", "TextLayout"}).Draw(rt, "con_layout")
 	s.Rolling = rapid.IntRange(0, 3).Draw(rt, "rolling_ref") == 0
+	if rapid.IntRange(0, 3).Draw(rt, "ref_level") == 0 {
+		s.RefLevel = rapid.SampledFrom([]string{"INFO", "WARN~FATAL", "ERROR", "debug~info"}).Draw(rt, "ref_level_v")
+		s.ConLayout, s.Rolling = "", false
+	}
 	return s
 }
 
@@ -94,7 +99,7 @@ func (c10) Run(x *Exec, scn any) {
 		}
 		spec := &SysSpec{Style: s.Style, Props: map[string]string{},
 			Apps: []AppSpec{{Name: "rec", Type: "Rec"}},
-			Logs: []LogSpec{{Name: "lg", Type: typ, Tags: []string{"hook_*"}, Level: s.Level, Refs: []RefSpec{{Ref: "rec"}}}}}
+			Logs: []LogSpec{{Name: "lg", Type: typ, Tags: []string{"hook_*"}, Level: s.Level, Refs: []RefSpec{{Ref: "rec", Level: s.RefLevel}}}}}
 		if s.ConLayout != "" {
 			// a second reference with the same (absent) bounds: both receive every enabled event
 			spec.Apps = append(spec.Apps, AppSpec{Name: "con", Type: "Console", Layout: s.ConLayout})
@@ -222,11 +227,22 @@ func (c10) Run(x *Exec, scn any) {
 					break
 				}
 			}
-			if recCount[sb.ID] != want {
-				o.violate("emit-count", fmt.Sprintf("C10/emitted-%d-times-expected-%d", recCount[sb.ID], want), "%s via %s (enabled=%v) was emitted %d times", sb.ID, ep, enabled, recCount[sb.ID])
+			// what the logger enables and what its only reference accepts are two things: the hooks and
+			// the generator follow the logger's level, delivery needs both
+			accepted := enabled
+			if s.Mode != "builtin" && s.RefLevel != "" {
+				rr := modelRefRanges([]RefSpec{{Ref: "rec", Level: s.RefLevel}})
+				accepted = enabled && rr[0].has(code)
+			}
+			wantRec := 0
+			if accepted {
+				wantRec = 1
+			}
+			if recCount[sb.ID] != wantRec {
+				o.violate("emit-count", fmt.Sprintf("C10/emitted-%d-times-expected-%d", recCount[sb.ID], wantRec), "%s via %s (enabled=%v, accepted by the reference=%v) was emitted %d times", sb.ID, ep, enabled, accepted, recCount[sb.ID])
 				continue
 			}
-			if !enabled {
+			if !accepted {
 				continue
 			}
 			// content of the record
